@@ -443,8 +443,12 @@ static struct protodefs fakepd[RAD_PROTOCOUNT];
 static int radput_ok = 1;
 #define MAXCL 64
 static struct client *wclients[MAXCL];
+static struct clsrvconf *wclconf[MAXCL];
 static int nwclients;
 static int world_ready;
+static int udp_lsock = -1, udp_nas[16], udp_nnas;
+static struct sockaddr_in udp_laddr;
+static void *udp_thread;
 
 static int fake_clientradput(struct server *s, unsigned char *rad, int radlen) {
     h_event("send", s->conf->name, rad, radlen);
@@ -480,6 +484,14 @@ static void put_digest(FILE *out) {
         struct client *c = wclients[i];
         int j;
         struct list_node *n;
+        if (c && wclconf[i]) { /* created by a transport: may have been removed behind our back (UDP expiry) */
+            int alive = 0;
+            for (n = list_first(wclconf[i]->clients); n; n = list_next(n))
+                if (n->data == c)
+                    alive = 1;
+            if (!alive)
+                c = wclients[i] = NULL;
+        }
         if (!c) {
             fprintf(out, " | C%d:gone", i);
             continue;
@@ -527,6 +539,16 @@ static int op_cfg(int argc, char **argv, FILE *out) {
     h_rewrite_reset();
     nwclients = 0;
     radput_ok = 1;
+    udp_thread = NULL;
+    if (udp_lsock >= 0) {
+        int k;
+        shutdown(udp_lsock, SHUT_RDWR);
+        close(udp_lsock);
+        udp_lsock = -1;
+        for (k = 0; k < udp_nnas; k++)
+            close(udp_nas[k]);
+        udp_nnas = 0;
+    }
     h_clock_set(1000000);
     h_rand_seed(0x1234567 + strlen(argv[0]));
     free(h_events_take());
@@ -574,6 +596,7 @@ static int op_client(int argc, char **argv, FILE *out) {
     sa->sin_port = htons(10000 + nwclients);
     cl->addr = (struct sockaddr *)sa;
     wclients[nwclients] = cl;
+    wclconf[nwclients] = NULL;
     fprintf(out, "c%d", nwclients++);
     return 1;
 }
@@ -735,6 +758,107 @@ static int op_radput(int argc, char **argv, FILE *out) {
     return 1;
 }
 
+/* ---- UDP listener: the real udpserverrd thread on a loopback socket ---- */
+extern void *h_udpserverrd(void *arg);
+extern struct client *h_udp_last_from;
+extern int h_udp_last_ret;
+extern long h_udp_last_created_off;
+extern int h_udp_last_ord;
+
+/* udplisten -> starts the listener; the thread runs to its first blocking receive */
+static int op_udplisten(int argc, char **argv, FILE *out) {
+    socklen_t sl = sizeof(udp_laddr);
+    int *sp;
+    (void)argv;
+    if (argc != 0 || !world_ready)
+        return 0;
+    udp_lsock = socket(AF_INET, SOCK_DGRAM, 0);
+    memset(&udp_laddr, 0, sizeof(udp_laddr));
+    udp_laddr.sin_family = AF_INET;
+    udp_laddr.sin_addr.s_addr = htonl(0x7f000001);
+    if (bind(udp_lsock, (struct sockaddr *)&udp_laddr, sizeof(udp_laddr)) || getsockname(udp_lsock, (struct sockaddr *)&udp_laddr, &sl))
+        return 0;
+    sp = malloc(sizeof(int));
+    *sp = udp_lsock;
+    udp_nnas = 0;
+    if (h_thread_create_nowait(h_udpserverrd, sp, &udp_thread))
+        return 0;
+    h_thread_wait_parked_or_blocked(udp_thread, -1, 5000);
+    fputs("ok", out);
+    put_tail(out);
+    return 1;
+}
+
+/* udpnas <dotted ipv4> -> n<k> : a NAS socket bound to that source address */
+static int op_udpnas(int argc, char **argv, FILE *out) {
+    struct sockaddr_in a;
+    if (argc != 1 || udp_nnas >= 16)
+        return 0;
+    memset(&a, 0, sizeof(a));
+    a.sin_family = AF_INET;
+    if (inet_pton(AF_INET, argv[0], &a.sin_addr) != 1)
+        return 0;
+    udp_nas[udp_nnas] = socket(AF_INET, SOCK_DGRAM, 0);
+    if (bind(udp_nas[udp_nnas], (struct sockaddr *)&a, sizeof(a)))
+        return 0;
+    fprintf(out, "n%d", udp_nnas++);
+    return 1;
+}
+
+/* udpsend <n> <hexpkt> -> udp dropped | udp ret=<r> created=<off> c<k> [fwd..] events digest */
+static int op_udpsend(int argc, char **argv, FILE *out) {
+    int n, l, st, k, ord_before;
+    uint8_t *b;
+    long before;
+    struct list_node *e;
+    if (argc != 2 || !udp_thread)
+        return 0;
+    n = atoi(argv[0]);
+    if (n < 0 || n >= udp_nnas)
+        return 0;
+    b = hx(argv[1], &l);
+    if (l < 0)
+        return 0;
+    before = h_recv_calls();
+    h_udp_last_from = NULL;
+    sendto(udp_nas[n], b, l, 0, (struct sockaddr *)&udp_laddr, sizeof(udp_laddr));
+    free(b);
+    st = h_thread_wait_parked_or_blocked(udp_thread, before, 5000);
+    if (st != 1) {
+        fprintf(out, st == 4 ? "udp dropped" : "udp stuck");
+        put_tail(out);
+        return 1;
+    }
+    /* which association? register transport-created clients on first sight */
+    for (k = 0; k < nwclients; k++)
+        if (wclients[k] == h_udp_last_from && wclconf[k])
+            break;
+    if (k == nwclients && h_udp_last_from && nwclients < MAXCL) {
+        /* the client may already have been released by radsrv's caller? no: clients live until expiry */
+        wclients[nwclients] = h_udp_last_from;
+        wclconf[nwclients] = h_udp_last_from->conf;
+        nwclients++;
+    }
+    fprintf(out, "udp ret=%d created=%ld c%d", h_udp_last_ret, h_udp_last_created_off, k);
+    ord_before = 0;
+    (void)ord_before;
+    for (e = list_first(srvconfs); e; e = list_next(e)) {
+        struct server *s = ((struct clsrvconf *)e->data)->servers;
+        int i;
+        if (!s)
+            continue;
+        for (i = 0; i < MAX_REQUESTS; i++)
+            if (s->requests[i].rq && h_rq_ordinal(s->requests[i].rq) == h_udp_last_ord) {
+                fprintf(out, " fwd:%s:%d:", s->conf->name, i);
+                puthex(out, s->requests[i].rq->buf, s->requests[i].rq->buflen);
+            }
+    }
+    put_tail(out);
+    /* let the thread go back to newrequest() + the blocking receive before the next op */
+    h_thread_release_until_blocked(udp_thread);
+    return 1;
+}
+
 /* rewrite <block name> <attr tokens> -> rv attrs ## transcript   (needs a cfg first) */
 static int op_rewrite(int argc, char **argv, FILE *out) {
     struct rewrite *rw;
@@ -772,6 +896,9 @@ int h_rsp_op(const char *op, int argc, char **argv, FILE *out) {
     if (!strcmp(op, "rmclient")) return op_rmclient(argc, argv, out);
     if (!strcmp(op, "radput")) return op_radput(argc, argv, out);
     if (!strcmp(op, "rewrite")) return op_rewrite(argc, argv, out);
+    if (!strcmp(op, "udplisten")) return op_udplisten(argc, argv, out);
+    if (!strcmp(op, "udpnas")) return op_udpnas(argc, argv, out);
+    if (!strcmp(op, "udpsend")) return op_udpsend(argc, argv, out);
     if (!strcmp(op, "parse")) return op_parse(argc, argv, out);
     if (!strcmp(op, "serialize")) return op_serialize(argc, argv, out);
     if (!strcmp(op, "replylog")) return op_replylog(argc, argv, out);
